@@ -25,7 +25,12 @@ judged by
        predictor was asked about are exactly the monitor's candidate sources (`srcmatch`);
   (iii) DriftPredict only: every recorded prediction is `pos + vel*(t - t_obs)` with the velocity in
        force at that call, i.e. the monitor's `view` (each source over its own elapsed time).
-A failure of (i) is a property-violation; (ii)/(iii) failing while (i) holds is a correspondence-break.
+  (o)  entry `link_df` only (Model/PredictTable.wrapSingle, Props/C11Table, driver op `PTABLE`): the
+       recording subclass wraps the linking function at run time and notes every per-frame table
+       that reaches it and every table it yields; the sequence of frame values, the row order inside
+       every frame and the returned table must be the model's (ascending frame value, table order
+       inside a frame, labels written back positionally, groups concatenated in frame order).
+A failure of (i) is a property-violation; (o)/(ii)/(iii) failing while (i) holds is a correspondence-break.
 """
 import numpy as np  # noqa
 
@@ -275,6 +280,7 @@ def recording(cls):
         def __init__(self, *a, **k):
             super().__init__(*a, **k)
             self.calls = []
+            self.handed, self.yielded = [], []
 
         def predict(self, t1, particles):
             particles = list(particles)
@@ -284,6 +290,22 @@ def recording(cls):
             out = np.array(list(super().predict(t1, particles)), dtype=float)
             self.calls.append((t1, asked, out.copy(), vel))
             return out
+
+        def wrap(self, linking_fcn, *a, **k):
+            # run-time wrapper of the linking function (signature-agnostic): notes every table that
+            # reaches it (frame values, row identities = index, coordinates as given) and every
+            # table it yields (row identities, labels)
+            handed, yielded = self.handed, self.yielded
+
+            def spy(f_iter, *aa, **kk):
+                def tap():
+                    for df in f_iter:
+                        handed.append(df.copy())
+                        yield df
+                for lab in linking_fcn(tap(), *aa, **kk):
+                    yielded.append(lab.copy())
+                    yield lab
+            return super().wrap(spy, *a, **k)
     Recording.__name__ = "Recording" + cls.__name__
     return Recording
 
@@ -333,7 +355,9 @@ def run_stateful(inp):
                 tab = tab.sample(frac=1, random_state=len(tab)).reset_index(drop=True)
             elif order == 2 and len(tab):
                 tab = tab.sort_values(cols[-1], kind="stable").reset_index(drop=True)
+            pred.table_in = tab.copy()
             out = pred.link_df(tab, sr, **kw)
+            pred.table_out = out
             for t in sorted(set(int(x) for x in out["frame"].values)):
                 levels.append(level_of(out[out["frame"] == t]))
         else:
@@ -354,7 +378,70 @@ def run_stateful(inp):
             raise
     if raised and inp["entry"] == "link_df":
         levels = []          # link_df returns nothing when it raises
+    run_stateful.last_pred = pred
     return levels, pred.calls, raised
+
+
+def ptable_tie(ctx, res, inp, pred, sig):
+    """`predictor.link_df` = Model/PredictTable.wrapSingle: the frames (and the rows inside each
+    frame) must reach the linking function in the model's order, and the labels it yields must come
+    back on the model's rows in the model's row order.  -> True when a violation was recorded"""
+    tab = getattr(pred, "table_in", None)
+    if tab is None or not len(tab):
+        return False
+    cols = COLS[inp["dim"]]
+    ints = lambda row: ",".join(str(int(round(float(v)))) for v in row)
+    rows_req = " ; ".join("%d %s %s %d" % (int(ix), common.rat_str(float(fr)), ints(pos), j)
+                          for j, (ix, fr, pos) in enumerate(zip(tab.index, tab["frame"].values,
+                                                                tab[cols].values)))
+    tag_of = {int(ix): j for j, ix in enumerate(tab.index)}      # reset_index: unique
+    ids = [[int(x) for x in df["particle"].values] for df in pred.yielded]
+    full = len(pred.yielded) == len(pred.handed) and getattr(pred, "table_out", None) is not None
+    line = "PTABLE %s | %s" % (rows_req, " ; ".join(" ".join(map(str, g)) for g in ids) if full and ids else "-")
+    m = common.kv(ctx.ask(line))
+    res.model_calls += 1
+    if "status" not in m:
+        raise RuntimeError("driver: %r on %s" % (m, line[:300]))
+    res.stat("ptable_ties")
+    impl_levels = ";".join("%s:%s" % (common.rat_str(float(df["frame"].iloc[0])) if len(df) else "n",
+                                      "+".join(ints(r) for r in df[cols].values)) for df in pred.handed)
+    impl_groups = ";".join(",".join(str(tag_of[int(ix)]) for ix in df.index) for df in pred.handed)
+    mod_levels = "" if m.get("levels") == "-" else m.get("levels", "")
+    mod_groups = "" if m.get("groups") == "-" else m.get("groups", "")
+    n_handed = len(pred.handed)
+    # a run that raised stops early: what was handed over must be a prefix of the model's sequence
+    ml, mg = mod_levels.split(";"), mod_groups.split(";")
+    if not full:
+        ml, mg = ml[:n_handed], mg[:n_handed]
+    frames_sorted = sorted(set(float(x) for x in tab["frame"].values))
+    in_order = bool((np.diff(tab["frame"].values.astype(float)) >= 0).all())
+    res.stat("ptable_table_in_frame_order" if in_order else "ptable_table_not_in_frame_order")
+    if m.get("asc") != "1" or impl_levels != ";".join(ml) or impl_groups != ";".join(mg):
+        res.violation("correspondence-break",
+                      "predictor.link_df: the frames that reach the linking function (frame values %s, "
+                      "row order inside the frames) are not the model's (ascending frame value %s, table "
+                      "order inside a frame)" % ([float(df["frame"].iloc[0]) for df in pred.handed if len(df)],
+                                                 frames_sorted),
+                      impl=dict(levels=impl_levels, groups=impl_groups),
+                      model=dict(levels=";".join(ml), groups=";".join(mg), asc=m.get("asc"),
+                                 first_appearance=m.get("first")),
+                      broken="PredictTable.wrapSingle / wrapSingle_frames_ascending (groupby sorts the frames)",
+                      signature=dict(stream="stateful", what="frames-handed-over"))
+        return True
+    if full:
+        out = pred.table_out
+        impl_rows = ";".join("%d:%s:%s:%d:%d" % (int(ix), common.rat_str(float(fr)), ints(pos), tag_of[int(ix)], int(pa))
+                             for ix, fr, pos, pa in zip(out.index, out["frame"].values, out[cols].values,
+                                                        out["particle"].values))
+        if m["status"] != "ok" or m.get("rows") != impl_rows:
+            res.violation("correspondence-break",
+                          "predictor.link_df: the returned table (row order, labels written back) is not "
+                          "the model's", impl=dict(rows=impl_rows), model=m,
+                          broken="PredictTable.wrapSingle (write-back / concatenation)",
+                          signature=dict(stream="stateful", what="table-returned"))
+            return True
+        res.stat("ptable_tables_compared")
+    return False
 
 
 def oracle_unique(levels, memory):
@@ -447,6 +534,10 @@ def run_stateful_case(ctx, inp):
         res.stat("stateful_ended_by_" + raised)
     res.stat("stateful_levels", len(levels))
     sig = dict(stream="stateful", predictor=name)
+    # (o) the table adapter of `link_df`: which frames reach the linking function, in which order
+    if inp["entry"] == "link_df":
+        if ptable_tie(ctx, res, inp, run_stateful.last_pred, sig):
+            return res
     # (i) the statement itself
     omsg = oracle_unique(levels, inp["memory"])
     if omsg is not None:
